@@ -119,7 +119,7 @@ Definition auto_decode (fuel : positive) (concatenated : bool) (inp : list N) : 
   | [] => (Truncated, [], 0)
   | b :: _ =>
     if b =? 0xFD then
-      (if concatenated then xz_decode_concat fuel inp else xz_decode_single fuel inp)
+      (if concatenated then xz_decode_concat fuel false inp else xz_decode_single fuel false inp)
     else if b =? 0x4C then
       let '(st, out, used) := lzip_decode fuel concatenated inp in
       (* SEQ_FINISH: with CONCATENATED anything left after the end is an error *)
